@@ -103,6 +103,17 @@ def synth(name, pmax=14_000.0, step=10.0, frame=False):
     return d
 
 
+def synth_f32(name, frame=False):
+    """The same exact family stored in single precision (a table read from a float32 file); `fluid()` and
+    `sim.make_reservoir` then also pass the initial pressure as an np.float32 scalar (a value read off that table)."""
+    d = {k: np.asarray(v, dtype=np.float32) for k, v in _synth(name, 14_000.0, 10.0).items()}
+    if frame:
+        import pandas as pd  # noqa: PLC0415
+
+        return pd.DataFrame(d)
+    return d
+
+
 def synth_desc(name, frame=False):
     """The same exact family with its rows in *descending* pressure order (legal: the wrapper's
     interpolators sort their abscissae)."""
@@ -166,6 +177,7 @@ TABLES = {
     "T_ship_gas": ship_gas, "T_hay": hay, "T_ship_oil": ship_oil, "T_lib": lib,
     "S_ideal": lambda **k: synth("S_ideal", **k), "S_zlin": lambda **k: synth("S_zlin", **k),
     "S_zdip": lambda **k: synth("S_zdip", **k), "S_zdip_desc": lambda **k: synth_desc("S_zdip", **k),
+    "S_zdip_f32": lambda **k: synth_f32("S_zdip", **k),
     "A_const": lambda **k: alpha_family("A_const", **k), "A_rise": lambda **k: alpha_family("A_rise", **k),
     "A_fall": lambda **k: alpha_family("A_fall", **k), "A_kink": lambda **k: alpha_family("A_kink", **k),
     "A_kink1e3": lambda **k: alpha_family("A_kink1e3", **k),
@@ -205,5 +217,5 @@ def fluid(name, p_i):
     if key not in _FLUIDS:
         with warnings.catch_warnings():
             warnings.simplefilter("ignore")
-            _FLUIDS[key] = FlowProperties(table(name), p_i)
+            _FLUIDS[key] = FlowProperties(table(name), np.float32(p_i) if name.endswith("_f32") else p_i)
     return _FLUIDS[key]
